@@ -20,7 +20,7 @@ Section P.
   Notation cstate := (cstate Param Series LossV).
   Notation one_batch := (one_batch Param Series LossV model lossf loss_leb rounds0 propose draws agent_actions plan).
   Notation batches := (batches Param Series LossV model lossf loss_leb rounds0 propose draws agent_actions plan).
-  Notation calibrate := (calibrate Param Series LossV model lossf loss_leb rounds0 propose draws agent_actions plan).
+  Notation calibrate_pos := (calibrate_pos Param Series LossV model lossf loss_leb rounds0 propose draws agent_actions plan).
   Notation step := (step Param Series LossV model lossf loss_leb rounds0 propose draws agent_actions plan).
   Notation run := (run Param Series LossV model lossf loss_leb rounds0 propose draws agent_actions plan).
   Notation simulate := (simulate Param Series model draws plan).
@@ -228,10 +228,10 @@ Section P.
   Lemma Inv_seeds E0 c : Inv E0 c -> Inv E0 (set_samplers_seeds _ _ _ draws c).
   Proof. intros H. unfold set_samplers_seeds. apply Inv_set_rng, Inv_set_sch, H. Qed.
 
-  Lemma calibrate_inv E0 n s s' e r : InvS E0 s -> calibrate n s = (s', e, r) ->
+  Lemma calibrate_pos_inv E0 n s s' e r : InvS E0 s -> calibrate_pos n s = (s', e, r) ->
      InvS E0 s' /\ extends (live _ _ _ s) (live _ _ _ s').
   Proof.
-    intros [Hl Hd] H. unfold Calibrator.calibrate in H.
+    intros [Hl Hd] H. unfold Calibrator.calibrate_pos in H.
     set (c1 := if Nat.eqb _ 0 then _ else _) in H.
     assert (Hc1 : Inv E0 c1) by (unfold c1; destruct (Nat.eqb _ 0); [now apply Inv_seeds | exact Hl]).
     assert (Hx1 : extends (live _ _ _ s) c1).
@@ -254,6 +254,29 @@ Section P.
       + split; [split; [now apply Inv_set_sch | exact Hd1] |]. eapply extends_trans; [exact Hx'|]. apply records_extends; reflexivity.
       + split; [split; auto | exact Hx'].
   Qed.
+
+  (* what the extra checkpoint of calibrate(0) can do *)
+  Lemma zero_ckpt_cases (s' : cstate) e r s2 e2 r2 : zero_ckpt _ _ _ (s', e, r) = (s2, e2, r2) ->
+    (s2 = s' /\ e2 = e /\ r2 = r) \/
+    (e = None /\ live _ _ _ s2 = live _ _ _ s' /\ disk _ _ _ s2 = Some (live _ _ _ s') /\ e2 = None /\ r2 = r /\
+       exists l b, sch _ _ _ (live _ _ _ s') = RR LossV l b) \/
+    (e = None /\ s2 = s' /\ e2 = Some ExOther /\ r2 = []).
+  Proof. unfold zero_ckpt. destruct e; [intros H; injection H as <- <- <-; auto|].
+    destruct (c_saving _); [|intros H; injection H as <- <- <-; auto].
+    unfold save. destruct (sch _ _ _ (live _ _ _ s')) eqn:Hs; intros H; injection H as <- <- <-.
+    - right; left. cbn. repeat split; auto. eexists; eexists; reflexivity.
+    - right; right. auto. Qed.
+
+  Notation calibrate := (calibrate Param Series LossV model lossf loss_leb rounds0 propose draws agent_actions plan).
+  Lemma calibrate_unfold n s : calibrate n s = match n with 0 => zero_ckpt _ _ _ (calibrate_pos 0 s) | S _ => calibrate_pos n s end.
+  Proof. reflexivity. Qed.
+
+  Lemma calibrate_inv E0 n s s' e r : InvS E0 s -> calibrate n s = (s', e, r) ->
+     InvS E0 s' /\ extends (live _ _ _ s) (live _ _ _ s').
+  Proof. intros Hi H. rewrite calibrate_unfold in H. destruct n; [|eapply calibrate_pos_inv; eauto].
+    destruct (calibrate_pos 0 s) as [[s1 e1] r1] eqn:E. destruct (calibrate_pos_inv _ _ _ _ _ _ Hi E) as [[Hl Hd] Hx].
+    apply zero_ckpt_cases in H. destruct H as [(-> & _ & _) | [(_ & Hlive & Hdisk & _) | (_ & -> & _)]]; [split; [split|]; auto | | split; [split|]; auto].
+    split; [split|]; rewrite ?Hlive; auto. intros d Hd'. rewrite Hdisk in Hd'. injection Hd' as <-. exact Hl. Qed.
 
   Lemma step_inv E0 s o s' e r : InvS E0 s -> step s o = (s', e, r) -> InvS E0 s'.
   Proof.
